@@ -99,6 +99,9 @@ func pipeRender(in pipeInput, text string, diagram0 *d2target.Diagram, g *d2grap
 
 	// ---------------------------------------------------------------- export under several themes (C28)
 	pick := []int64{themes[r.Intn(len(themes))], []int64{300, 301, 303}[r.Intn(3)]} // + terminal, terminal grayscale, c4: themes with special rules
+	if in.Mode == "render2" || in.Mode == "render2-plain" {
+		pick = []int64{pick[0], 300, 301, 303} // every theme with special rules
+	}
 	seenT := map[int64]bool{}
 	for _, tid := range pick {
 		if seenT[tid] || d2themescatalog.Find(tid).ID != tid {
@@ -231,9 +234,14 @@ func pipeRender(in pipeInput, text string, diagram0 *d2target.Diagram, g *d2grap
 		theme  int64
 		dark   int64 // -1 none
 		ovr    int   // number of overrides
+		only   int   // 0: light and dark overrides as drawn; 1: light overrides only (dark ones nil); 2: dark overrides only (light ones nil)
 	}
 	combos := []combo{{pad: 100, theme: 0, dark: -1}, {pad: int64(r.Intn(200)), sketch: true, theme: themes[r.Intn(len(themes))], dark: -1},
 		{pad: int64(r.Intn(9)), center: true, scale: 0.5 + r.Float64(), theme: themes[r.Intn(len(themes))], dark: []int64{200, 201}[r.Intn(2)], ovr: 1 + r.Intn(4)}}
+	if in.Mode == "render2" {
+		// a dark theme with overrides given for one colour scheme only
+		combos = append(combos, combo{pad: 10, theme: themes[r.Intn(len(themes))], dark: []int64{200, 201}[r.Intn(2)], ovr: 1 + r.Intn(3), only: 1 + r.Intn(2)})
+	}
 	for ci, cb := range combos {
 		cb := cb
 		guard("render", evs, func() {
@@ -252,9 +260,11 @@ func pipeRender(in pipeInput, text string, diagram0 *d2target.Diagram, g *d2grap
 					code := themeCodes[r.Intn(len(themeCodes))]
 					col := fmt.Sprintf("#%02x%02x%02x", r.Intn(256), r.Intn(256), r.Intn(256))
 					c2 := col
-					reflect.ValueOf(to).Elem().FieldByName(code).Set(reflect.ValueOf(&c2))
-					ovr[code] = col
-					if k%2 == 0 {
+					if cb.only != 2 {
+						reflect.ValueOf(to).Elem().FieldByName(code).Set(reflect.ValueOf(&c2))
+						ovr[code] = col
+					}
+					if (k%2 == 0 && cb.only == 0) || cb.only == 2 {
 						c3 := col
 						reflect.ValueOf(dto).Elem().FieldByName(code).Set(reflect.ValueOf(&c3))
 						ovr["dark:"+code] = col
@@ -262,6 +272,12 @@ func pipeRender(in pipeInput, text string, diagram0 *d2target.Diagram, g *d2grap
 				}
 				ro.ThemeOverrides = to
 				ro.DarkThemeOverrides = dto
+				if cb.only == 1 {
+					ro.DarkThemeOverrides = nil
+				}
+				if cb.only == 2 {
+					ro.ThemeOverrides = nil
+				}
 			}
 			d, _, err := compileWith(text, eng, ro)
 			if err != nil {
@@ -396,8 +412,22 @@ func extentsOf(d *d2target.Diagram) [][]int {
 		}
 		if s.Label != "" && s.LabelPosition != "" {
 			lp := label.FromString(s.LabelPosition)
-			if lp.IsOutside() {
+			if lp.IsOutside() || lp.IsBorder() {
+				// as d2svg draws it: outside and border labels are placed around the box enlarged by the 3d / multiple offsets
 				box := geo.NewBox(geo.NewPoint(x, y), w, h)
+				if s.ThreeDee {
+					oy := float64(d2target.THREE_DEE_OFFSET)
+					if s.Type == d2target.ShapeHexagon {
+						oy /= 2
+					}
+					box.TopLeft.Y -= oy
+					box.Height += oy
+					box.Width += float64(d2target.THREE_DEE_OFFSET)
+				} else if s.Multiple {
+					box.TopLeft.Y -= float64(d2target.MULTIPLE_OFFSET)
+					box.Height += float64(d2target.MULTIPLE_OFFSET)
+					box.Width += float64(d2target.MULTIPLE_OFFSET)
+				}
 				tl := lp.GetPointOnBox(box, label.PADDING, float64(s.LabelWidth), float64(s.LabelHeight))
 				add(5, tl.X, tl.Y, tl.X+float64(s.LabelWidth), tl.Y+float64(s.LabelHeight))
 			}
